@@ -80,3 +80,169 @@ def run(chk):
     prog = Program.load("default")
     S = Summaries(prog)
     _commit_rule(chk, prog, S)
+
+
+# ------------------------------------------------------------------------------------------------
+# operand layouts: the emitter form and the opcode's instruction type must place operands at the same widths
+# (signedness of an immediate does not change the encoding)
+L_D = ("D24",)
+L_AE = ("A8", "E16")
+L_ABC = ("A8", "B8", "C8")
+FORM_LAYOUT = {"s": L_D, "ss": L_AE, "sss": L_ABC, "ssi": L_ABC, "ssu": L_ABC, "si": L_AE, "su": L_AE, "sl": L_AE, "st": L_AE}
+TYPE_LAYOUT = {"JINT_S": L_D, "JINT_SS": L_AE, "JINT_SSS": L_ABC, "JINT_SES": L_ABC, "JINT_SSI": L_ABC, "JINT_SSU": L_ABC,
+               "JINT_SI": L_AE, "JINT_SU": L_AE, "JINT_SL": L_AE, "JINT_ST": L_AE, "JINT_SD": L_AE, "JINT_SC": L_AE,
+               "JINT_0": (), "JINT_L": ("L24",)}
+FORM_TYPES = FORM_LAYOUT
+
+
+def _optables_rule(chk, prog):
+    rule = "C02-OPTABLES"
+    chk.rule(rule, "opcode enum, instruction-type table, dispatch table, handler labels and assembler mnemonics agree")
+    from rules.c10 import instruction_types
+    from jv.witness import run_witnesses
+    types, ops = instruction_types(prog)
+    ops = [o for o in ops if o != "JOP_INSTRUCTION_COUNT"]
+    count = prog.enums.get("JOP_INSTRUCTION_COUNT")
+    if count is None or len(ops) < 70:
+        raise AnalysisBroken("opcode enum not found")
+    # instruction-type table covers every opcode
+    for op in ops:
+        chk.instance(rule)
+        if op in types:
+            chk.ok(rule, "%s has instruction type %s" % (op, types[op]))
+        else:
+            chk.violation(rule, "bytecode.c", "janet_instructions", op, prog.tus["bytecode.c"].file, "opcode %s has no entry in janet_instructions[]" % op)
+    # dispatch table: op_lookup[i] == &&label_<op i>
+    fn = prog.need_func("run_vm", "vm.c")
+    look = [n for n in fn.nodes if n.k == "vardecl" and n.name == "op_lookup"]
+    if not look or not look[0].kids:
+        raise AnalysisBroken("op_lookup not found")
+    elems = look[0].kids[0].kids
+    labels = set(n.name for n in fn.nodes if n.k == "label")
+    for i, op in enumerate(ops):
+        chk.instance(rule)
+        e = strip_casts(elems[i]) if i < len(elems) else None
+        want = "label_" + op
+        if e is not None and e.k == "addrlabel" and e.name == want and want in labels:
+            chk.ok(rule, "op_lookup[%d] = &&%s" % (i, want))
+        else:
+            chk.violation(rule, "vm.c", "run_vm", "op_lookup:%s" % op, look[0].loc,
+                          "op_lookup[%d] is %s, expected &&%s: opcode %s dispatches to the wrong handler" % (
+                              i, e.text() if e is not None else "missing", want, op))
+    chk.instance(rule)
+    rest = [strip_casts(e) for e in elems[len(ops):]]
+    if all(e.k == "addrlabel" and e.name == "label_unknown_op" for e in rest):
+        chk.ok(rule, "%d remaining dispatch entries go to label_unknown_op" % len(rest))
+    else:
+        chk.violation(rule, "vm.c", "run_vm", "op_lookup:tail", look[0].loc, "a dispatch entry beyond the last opcode does not go to label_unknown_op")
+    # assembler mnemonics: one per opcode, sorted
+    asm = prog.tus["asm.c"].ginit("janet_ops")
+    if asm is None:
+        raise AnalysisBroken("janet_ops not found")
+    names, seen = [], {}
+    for row in asm.kids:
+        if row.k == "init" and len(row.kids) >= 2 and row.kids[0].k == "str":
+            nm = row.kids[0].d["s"]
+            o = strip_casts(row.kids[1])
+            names.append(nm)
+            seen.setdefault(o.name if o.k == "ref" else str(o.v), []).append(nm)
+    for op in ops:
+        chk.instance(rule)
+        if len(seen.get(op, [])) == 1:
+            chk.ok(rule, "%s has mnemonic %s" % (op, seen[op][0]))
+        else:
+            chk.violation(rule, "asm.c", "janet_ops", op, prog.tus["asm.c"].file, "opcode %s has %d assembler mnemonics" % (op, len(seen.get(op, []))))
+    chk.instance(rule)
+    if names == sorted(names):
+        chk.ok(rule, "mnemonic table sorted (it is binary-searched)")
+    else:
+        bad = [b for a, b in zip(names, names[1:]) if a > b]
+        chk.violation(rule, "asm.c", "janet_ops", "sorted", prog.tus["asm.c"].file, "mnemonic table is binary-searched but not sorted at %s" % bad[:2])
+    res = run_witnesses([("count<=128", "JOP_INSTRUCTION_COUNT <= 128")], includes=("janet.h",))
+    chk.instance(rule)
+    if res["count<=128"]:
+        chk.ok(rule, "witness: JOP_INSTRUCTION_COUNT <= 128 (bit 7 is the breakpoint flag)")
+    else:
+        chk.violation(rule, "janet.h", "JanetOpCode", "count", "src/include/janet.h:0", "more than 128 opcodes: bit 7 of the opcode byte is the breakpoint flag")
+    return types
+
+
+def _emitform_rule(chk, prog, types):
+    rule = "C02-EMITFORM"
+    chk.rule(rule, "every janetc_emit_<form>(c, OP, ...) uses the form whose operand widths match OP's instruction type")
+    n = 0
+    for unit in ("compile.c", "specials.c", "cfuns.c", "emit.c"):
+        for fn in prog.tus[unit].funcs.values():
+            # one level of parameter binding: int op parameters of this function
+            params = {p["n"]: i for i, p in enumerate(fn.params)}
+            for c in fn.calls():
+                if not (c.callee or "").startswith("janetc_emit_") or len(c.args) < 2:
+                    continue
+                form = c.callee[len("janetc_emit_"):]
+                if form not in FORM_TYPES:
+                    continue
+                opn = strip_casts(c.args[1])
+                cands = []
+                if opn.k == "ref" and opn.d.get("d") == "enum":
+                    cands = [opn.name]
+                elif opn.k == "cond":
+                    cands = [strip_casts(x).name for x in opn.kids[1:] if strip_casts(x).k == "ref" and strip_casts(x).d.get("d") == "enum"]
+                elif opn.k == "ref" and opn.name in params:
+                    # constants passed for that parameter at the call sites of fn (same unit)
+                    idx = params[opn.name]
+                    for g in prog.tus[unit].funcs.values():
+                        for cc in g.calls(fn.name):
+                            if idx < len(cc.args):
+                                a = strip_casts(cc.args[idx])
+                                if a.k == "ref" and a.d.get("d") == "enum":
+                                    cands.append(a.name)
+                for op in sorted(set(cands)):
+                    if op not in types:
+                        continue
+                    n += 1
+                    chk.instance(rule)
+                    chk.analysed(fn)
+                    if TYPE_LAYOUT.get(types[op]) == FORM_LAYOUT[form]:
+                        chk.ok(rule, "%s: %s(%s) matches %s" % (fn.name, c.callee, op, types[op]))
+                    else:
+                        chk.violation(rule, unit, fn.name, "%s:%s" % (c.callee, op), c.loc,
+                                      "%s is emitted with %s but its instruction type is %s: operands are encoded at the "
+                                      "wrong widths once a slot number exceeds what the wrong form allows" % (op, c.callee, types[op]))
+    if n < 60:
+        raise AnalysisBroken("only %d emission sites with a known opcode" % n)
+
+
+def _srcmap_rule(chk, prog):
+    rule = "C02-SRCMAP"
+    chk.rule(rule, "bytecode and source map are appended together; only janetc_emit appends to the instruction buffer")
+    n = 0
+    for fn in prog.all_funcs():
+        if fn.tu.name not in ("emit.c", "compile.c", "specials.c", "cfuns.c"):
+            continue
+        pushes_b = [x for x in fn.nodes if x.k == "mem" and x.field == "buffer" and x.rec == "JanetCompiler" and x.in_macro("janet_v_push")]
+        pushes_m = [x for x in fn.nodes if x.k == "mem" and x.field == "mapbuffer" and x.rec == "JanetCompiler" and x.in_macro("janet_v_push")]
+        if pushes_b or pushes_m:
+            n += 1
+            chk.instance(rule)
+            chk.analysed(fn)
+            if fn.name != "janetc_emit":
+                chk.violation(rule, fn.tu.name, fn.name, "append", (pushes_b or pushes_m)[0].loc,
+                              "%s appends to the compiler's instruction/source-map buffers directly instead of going through janetc_emit" % fn.name)
+            elif pushes_b and pushes_m:
+                chk.ok(rule, "janetc_emit appends the instruction and its source mapping together")
+            else:
+                chk.violation(rule, fn.tu.name, fn.name, "pair", fn.loc, "janetc_emit no longer appends to both buffer and mapbuffer")
+    if n < 1:
+        raise AnalysisBroken("janetc_emit's buffer appends not found")
+
+
+_run_commit_only = run
+
+
+def run(chk):   # noqa
+    prog = Program.load("default")
+    S = Summaries(prog)
+    _commit_rule(chk, prog, S)
+    types = _optables_rule(chk, prog)
+    _emitform_rule(chk, prog, types)
+    _srcmap_rule(chk, prog)
